@@ -12,6 +12,7 @@ package rotime
 //@   binds value d
 //@   calls Add
 //@   params value
+//@   scope d value
 //@   maypanic
 //@   track call.*
 //@   ensures [calls-the-wrapped-function-once|C18] count(call.ANY) == 1 && called(call.Time.Add)
@@ -23,6 +24,7 @@ package rotime
 //@   binds value years months days
 //@   calls AddDate
 //@   params value
+//@   scope days months value years
 //@   maypanic
 //@   track call.*
 //@   ensures [calls-the-wrapped-function-once|C18] count(call.ANY) == 1 && called(call.Time.AddDate)
@@ -34,6 +36,7 @@ package rotime
 //@   binds value format
 //@   calls Format
 //@   params value
+//@   scope format value
 //@   maypanic
 //@   track call.*
 //@   ensures [calls-the-wrapped-function-once|C18] count(call.ANY) == 1 && called(call.Time.Format)
@@ -45,6 +48,7 @@ package rotime
 //@   binds value loc
 //@   calls In
 //@   params value
+//@   scope loc value
 //@   maypanic
 //@   track call.*
 //@   ensures [calls-the-wrapped-function-once|C18] count(call.ANY) == 1 && called(call.Time.In)
@@ -56,6 +60,7 @@ package rotime
 //@   binds value layout
 //@   calls Parse
 //@   params value
+//@   scope layout value
 //@   maypanic
 //@   track call.*
 //@   ensures [calls-the-wrapped-function-once|C18] count(call.ANY) == 1 && called(call.Parse)
@@ -67,6 +72,7 @@ package rotime
 //@   binds value layout loc
 //@   calls ParseInLocation
 //@   params value
+//@   scope layout loc value
 //@   maypanic
 //@   track call.*
 //@   ensures [calls-the-wrapped-function-once|C18] count(call.ANY) == 1 && called(call.ParseInLocation)
@@ -80,6 +86,7 @@ package rotime
 //@   binds value
 //@   calls Date Location
 //@   params value
+//@   scope value
 //@   maypanic
 //@   track call.*
 //@   ensures [reads-the-civil-date-and-the-zone-of-the-item|C18] count(call.ANY) == 3 && called(call.Time.Date) && called(call.Time.Location) && called(call.Date) && arg(call.Time.Date, 0) == value && arg(call.Time.Location, 0) == value
